@@ -4,27 +4,31 @@
    get_hash_binding_manifest, the exclusion re-basing of verify_hash_binding); the allowed-action list is
    regenerated from claim.rs (Generated/C21_facts.v); range hashing is C13's model and theorem.
    Remarks recorded as coded: the thumbnail rule is `count > 1` (one claim thumbnail passes); the test
-   "update manifests cannot contain data hash assertions" sits in verify_hash_binding, which only runs on the
-   binding manifest — and that is never an update manifest (c21_hash_rule_unreachable), so a hard binding inside an
-   update manifest is not rejected (known finding F-UPDATE-HARDBINDING, witness c21_hard_binding_refuted). *)
+   "update manifests cannot contain data hash assertions" of verify_hash_binding only runs on the binding manifest,
+   which is never an update manifest (c21_hash_rule_unreachable) — since fix 37f0723a3 verify_internal's update branch
+   carries the same test itself, so the former counterexample F-UPDATE-HARDBINDING is rejected
+   (c21_hard_binding_flagged, c21_former_witness_rejected). *)
 From Coq Require Import List NArith Bool String.
 From C2PA Require Import Base.Bytes Model.RangeHash Model.UpdateManifest Generated.C21_facts
      Proofs.RangeHashProofs Proofs.UpdateManifestProofs.
 Import ListNotations.
 Open Scope N_scope.
 
-(* the update-manifest rules exactly as the validator implements them *)
-Theorem c21_update_rules_as_coded :
+(* the property's rule set, for every store and every update manifest: no manifest.update.* failure iff exactly one
+   parentOf ingredient, no hard binding, only allowed actions (and the thumbnail rule as coded) *)
+Theorem c21_valid_only_if :
   forall st c l,
     c_update c = true -> get_claim st (c_label c) = Some c -> binding_manifest st c = Some l ->
     (no_update_code (verify_active st c) <->
-     parent_count c = 1%nat /\ actions_allowed c /\ (c_thumbs c <= UPDATE_THUMBNAIL_LIMIT)%nat).
-Proof. exact update_rules_as_coded. Qed.
+     parent_count c = 1%nat /\ c_hashes c = O /\ actions_allowed c /\ (c_thumbs c <= UPDATE_THUMBNAIL_LIMIT)%nat).
+Proof. exact update_valid_only_if. Qed.
 
-(* the full statement (… and no hard binding) is false of the code: witness, replayed on the implementation by ./check *)
-Theorem c21_hard_binding_refuted :
-  c_update hb_update = true /\ has_hard_binding hb_update /\ verify_active [hb_parent; hb_update] hb_update = [].
-Proof. exact hard_binding_refuted. Qed.
+(* a hard binding inside an update manifest is flagged; the witness of the repaired finding is now rejected *)
+Theorem c21_hard_binding_flagged :
+  forall c, c_update c = true -> has_hard_binding c -> In UpdateInvalid (update_rule_failures c).
+Proof. exact hard_binding_flagged. Qed.
+Theorem c21_former_witness_rejected : verify_active [hb_parent; hb_update] hb_update = [UpdateInvalid].
+Proof. exact hard_binding_witness_rejected. Qed.
 
 (* why: whatever verify_hash_binding is run on is not an update manifest *)
 Theorem c21_hash_rule_unreachable :
@@ -33,21 +37,12 @@ Theorem c21_hash_rule_unreachable :
     c_update b = false /\ c_hashes b <> O.
 Proof. exact binding_never_update. Qed.
 
-(* the property's rule set holds outside the known class *)
-Theorem c21_valid_only_if :
-  forall st c l,
-    c_update c = true -> get_claim st (c_label c) = Some c -> binding_manifest st c = Some l ->
-    ~ has_hard_binding c ->
-    (no_update_code (verify_active st c) <->
-     parent_count c = 1%nat /\ c_hashes c = O /\ actions_allowed c /\ (c_thumbs c <= UPDATE_THUMBNAIL_LIMIT)%nat).
-Proof. exact update_valid_only_if. Qed.
-
 (* a clean verdict on an update manifest: the rules, and a binding manifest that is not an update manifest and
    carries exactly one hard binding *)
 Theorem c21_clean_verdict :
   forall st c,
     c_update c = true -> get_claim st (c_label c) = Some c -> verify_active st c = [] ->
-    parent_count c = 1%nat /\ actions_allowed c /\ (c_thumbs c <= UPDATE_THUMBNAIL_LIMIT)%nat /\
+    parent_count c = 1%nat /\ c_hashes c = O /\ actions_allowed c /\ (c_thumbs c <= UPDATE_THUMBNAIL_LIMIT)%nat /\
     exists l b, binding_manifest st c = Some l /\ get_claim st l = Some b /\ c_update b = false /\ c_hashes b = 1%nat.
 Proof. exact verify_active_clean. Qed.
 
@@ -99,9 +94,11 @@ Example c21_example :
   let u1 := Claim 2 true [Ing ComponentOf (Some 9); Ing ParentOf (Some 1)] 0 [["c2pa.opened"%string]] 0 in
   let u2 := Claim 3 true [Ing ParentOf (Some 2)] 0 [["c2pa.opened"%string; "c2pa.edited"%string]] 0 in
   let u3 := Claim 4 true [Ing ParentOf (Some 2); Ing ParentOf (Some 1)] 0 [] 0 in
+  let u4 := Claim 5 true [Ing ParentOf (Some 2)] 1 [["c2pa.opened"%string]] 0 in
   binding_manifest [p; u1; u2; u3] u2 = Some 1
   /\ verify_active [p; u1; u2; u3] u1 = []
   /\ verify_active [p; u1; u2; u3] u2 = [UpdateInvalid]
   /\ verify_active [p; u1; u2; u3] u3 = [UpdateInvalid]
+  /\ verify_active [p; u1; u4] u4 = [UpdateInvalid]
   /\ rebase [HR 2 100 None; HR 500 10 None] (Some (2, 160)) = [HR 2 160 None; HR 560 10 None].
 Proof. vm_compute. repeat split; reflexivity. Qed.
